@@ -225,6 +225,66 @@ def wiring(res, prog, f):
         res.error('C20.5r', 'Minidump::read_path call not found')
 
 
+def raw_dump(res, prog, c):
+    """C20.6: the raw-dump mode prints every stream it reads, once.  (a) every stream type fetched with get_stream in
+    print_minidump_dump has a print call of that type (or of the unified memory wrapper) and vice versa; (b) a stream held
+    in an Option is only `take()`n lazily: the fallback of the unified memory list is taken inside the closure given to
+    or_else, never as an eagerly evaluated argument (Option::or / unwrap_or / map_or), which would empty the Option and
+    drop the taken stream whenever the preferred list is present."""
+    res.rule('C20.6', 0, floor=20, note='raw dump: every fetched stream type is printed; Options holding streams are only emptied lazily')
+    f = c.fn('minidump_stackwalk::print_minidump_dump')
+    if f is None:
+        res.error('C20.6', 'print_minidump_dump not found')
+        return
+    def base(ty):
+        ty = re.sub(r"<.*$", '', ty or '')
+        return ty.split('::')[-1]
+    fetched = {}
+    printed = {}
+    for b, t in f.calls():
+        n = f.callee(t) or ''
+        if n == 'minidump::Minidump::get_stream':
+            fetched.setdefault(base((t.get('targs') or ['', ''])[1]), t)
+        elif n.endswith('::print') and n.startswith('minidump::'):
+            printed.setdefault(n.split('::')[-2], t)
+    for ty, t in sorted(fetched.items()):
+        res.rule('C20.6', 1)
+        if ty not in printed:
+            res.violation('C20.6', 'C20.6|unprinted|%s' % ty, f, t.get('line'), 'stream %s is read for the raw dump but never printed' % ty)
+    for ty, t in sorted(printed.items()):
+        res.rule('C20.6', 1)
+        if ty not in fetched and ty not in ('Minidump', 'UnifiedMemoryList'):
+            res.violation('C20.6', 'C20.6|unfetched|%s' % ty, f, t.get('line'), '%s::print is called on something that was not fetched with get_stream' % ty)
+    # (b) eager fallbacks that consume a stream
+    EAGER = re.compile(r'(Option::(or|unwrap_or|map_or|xor|and|zip)|Result::(or|unwrap_or|and))$')
+    takes = 0
+    for g in c.fns:
+        if not (g is f or g.qual.startswith(f.qual + '::{')):
+            continue
+        for b, t in g.calls():
+            n = g.callee(t) or ''
+            if n.endswith('Option::take') or n.endswith('mem::take') or n.endswith('mem::replace'):
+                takes += 1
+                res.rule('C20.6', 1)
+            if EAGER.search(n):
+                for a in t['args'][1:]:
+                    tr = g.expand(g.operand_tree(a))
+                    if contains(tr, lambda x: is_call(x, 'Option::take') or is_call(x, 'mem::take') or is_call(x, 'mem::replace')):
+                        res.violation('C20.6', 'C20.6|eager-take|%s' % n.split('::')[-1], g, t.get('line'), '%s evaluates its fallback eagerly, and the fallback take()s a stream: when the preferred value is present the taken stream is dropped and never printed' % n)
+    # the unified list is or_else(map(take(memory64_list), Memory64), || map(take(memory_list), Memory))
+    um = [t for b, t in f.calls() if (f.callee(t) or '').endswith('Option::or_else') and 'UnifiedMemoryList' in str(t.get('targs'))]
+    res.rule('C20.6', 1)
+    ok = False
+    if len(um) == 1:
+        e = f.expand(f.call_tree(um[0]))
+        ok = show(e[2]) == '(std::option::Option::map (std::option::Option::take memory64_list) (fnref minidump::UnifiedMemoryList::Memory64))' and e[3][0] == 'closure'
+        if ok:
+            g = c.fn(e[3][1])
+            ok = g is not None and [show(g.expand(t2)) for (_, _, t2) in ret_assigns(g)] == ['(std::option::Option::map (std::option::Option::take memory_list) (fnref minidump::UnifiedMemoryList::Memory))']
+    if not ok:
+        res.violation('C20.6', 'C20.6|unified', f, f.line, 'the unified memory list is not memory64_list.take().map(Memory64).or_else(|| memory_list.take().map(Memory))')
+
+
 def run(tier, t0):
     res = harness.Result(PID)
     prog = program()
@@ -238,6 +298,7 @@ def run(tier, t0):
         features_table(res, prog, f)
         wiring(res, prog, f)
     exit_rules(res, prog, c)
+    raw_dump(res, prog, c)
     # backing rule for the stats getters (C20.subscriptions)
     res.rule('C20.subscriptions', 0, floor=2, note='stat getters used by the CLI are the ones it subscribed to')
     if f is not None:
@@ -259,7 +320,7 @@ def run(tier, t0):
         'byte equality of the written report with the library\'s output is implied by C20.4/C20.5 (same call, same writer), not checked on values',
         'stdout/stderr write errors other than BrokenPipe surface as io::Error -> exit 1 through main',
     ]
-    return harness.finish(res, tier, t0, distinct=len(nontrivial) + 6, explanation=(
+    return harness.finish(res, tier, t0, distinct=len(nontrivial) + 7, explanation=(
         'Panic-edge inventory over the minidump-stackwalk binary, agreement between the --features value_parser list and the handled arms, '
         'exit discipline (constant status 1 after a diagnostic; no failure exit reachable after a printer call), who may receive the output '
         'writers, and path-sensitive control dependence of each printer call on the option that selects it.'))
